@@ -147,6 +147,28 @@ fn stream_cores(ctx: &Ctx, t: &mut Tape<'_>, r: &mut Report) -> CheckResult {
         cur = f.make_core(ctor_pick(t), &key, &st).map_err(|_| Violation { sig: format!("C09/ctor-rejected/{ty}"), msg: "exported state rejected as IV".into() })?;
     }
     ensure_eq_bytes!(got, want, format!("C09/resume/{ty}"), "export/import at {hops:?} of {n} blocks");
+    // Exporting is an observation. Export, reposition without producing any data, export again: the
+    // second value must be the chaining value of the new position (a remembered first answer must not
+    // survive the repositioning), and a fresh instance built from it continues from there.
+    // (read last so that older tapes keep their meaning)
+    let tgt = t.idx(48) as u128 + if t.chance(64) { 1u128 << 33 } else { 0 };
+    if kind.seekable() && (kind.width().unwrap_or(128) > 32 || tgt < 1 << 32) {
+        r.label("export-reposition-export");
+        // (an instance built from the original IV: block positions count from there)
+        let mut cur = f.make_core(Ctor::New, &key, &iv).expect("harness: ctor");
+        let warm = n.min(2) * bs;
+        let mut o = vec![0u8; warm];
+        cur.process(ck, &data[..warm], &mut o, &mut Sched::new([1, 0, 2, 3, 1, 0]));
+        let _ = cur.iv_state();
+        cur.set_block_pos(tgt).ok_or_else(|| Violation { sig: format!("C09/not-seekable/{ty}"), msg: "core cannot be positioned".into() })?;
+        let st = cur.iv_state().ok_or_else(|| Violation { sig: format!("C09/no-ivstate/{ty}"), msg: "core does not report an IV state".into() })?;
+        ensure_eq_bytes!(st, model.iv_state_after(tgt), format!("C09/state-value-after-reposition/{ty}"), "iv_state() after iv_state(); set_block_pos({tgt}) is not the chaining value of block {tgt}");
+        let mut fresh = f.make_core(Ctor::New, &key, &st).map_err(|_| Violation { sig: format!("C09/ctor-rejected/{ty}"), msg: "exported state rejected as IV".into() })?;
+        let z = vec![0u8; 2 * bs];
+        let mut o = vec![0x5Au8; 2 * bs];
+        fresh.process(CoreKind::ApplyBlockInout, &z, &mut o, &mut Sched::new([0; 6]));
+        ensure_eq_bytes!(o, model.apply_at(tgt, 0, &z), format!("C09/resume-after-reposition/{ty}"), "two blocks from the state exported at block {tgt}");
+    }
     Ok(())
 }
 
